@@ -123,6 +123,35 @@ def check(ctx: Ctx) -> None:
     ctx.count('call_sites', len(sites))
     for idx in sites:
         _check_call_site(ctx, toks, idx)
+    # … and the arithmetic helpers get their figures in the order of their parameters: a figure named like one parameter never lands in another
+    for hname in ('calculateCashFlow', 'calculateTransfersNet'):
+        hf = jsmini.find_function(toks, hname)
+        if hf is None:
+            continue
+        params = [p_ for p_ in hf[2] if isinstance(p_, str)]
+        low = [p_.lower() for p_ in params]
+        n_sites = 0
+        for idx in jsmini.call_sites(toks, hname):
+            try:
+                call = jsmini.Parser(toks, idx).expr()
+            except AnalysisError:
+                continue
+            if not (isinstance(call, tuple) and call[0] == 'call' and len(call[2]) == len(params)):
+                continue
+            n_sites += 1
+            crossed = []
+            for i_, a_ in enumerate(call[2]):
+                words = {pr.lower() for _r, pr in _members(a_)} | {r_.lower() for r_ in _roots(a_)}
+                other = [params[j_] for j_ in range(len(params)) if j_ != i_ and low[j_] in words]
+                if other and low[i_] not in words:
+                    crossed.append(f'argument {i_ + 1} ({params[i_]}) is given {other[0]}')
+            encl = jsmini.enclosing_function_start(toks, idx)
+            where_ = f'js:{hname}@{toks[encl + 1].val if encl is not None and toks[encl + 1].kind == "id" else "site" + str(n_sites)}'
+            if crossed:
+                ctx.fail('C13.R2', where_, 'args', f'{hname}(…) at line {toks[idx].line}: {"; ".join(crossed)} — the browser computes the figure from swapped inputs, '
+                         f'the command line does not', file=JS)
+            else:
+                ctx.ok('C13.R2', where_, f'{hname}(…) at line {toks[idx].line}: figures passed in parameter order', construct='args')
     # python side of R2: analyze_transactions
     _check_py_call_site(ctx)
 
